@@ -185,6 +185,50 @@ func vxRootRemove(r *os.Root, name string) error {
 	return nil
 }
 
+// RemoveAll removes name and everything below it; a missing name is not an error.
+func vxRootRemoveAll(r *os.Root, name string) error {
+	f := vxFS
+	f.step()
+	d, last, err := f.walk("removeall", name)
+	if err != nil {
+		return nil
+	}
+	delete(d.children, last)
+	return nil
+}
+
+type vxFileInfo struct {
+	name string
+	size int64
+	dir  bool
+}
+
+func (i vxFileInfo) Name() string       { return i.name }
+func (i vxFileInfo) Size() int64        { return i.size }
+func (i vxFileInfo) Mode() fs.FileMode  { return 0o644 }
+func (i vxFileInfo) ModTime() time.Time { return time.Time{} }
+func (i vxFileInfo) IsDir() bool        { return i.dir }
+func (i vxFileInfo) Sys() any           { return nil }
+
+func vxRootStat(r *os.Root, name string) (fs.FileInfo, error) {
+	f := vxFS
+	f.step()
+	d, last, err := f.walk("stat", name)
+	if err != nil {
+		return nil, err
+	}
+	n, ok := d.children[last]
+	if !ok {
+		return nil, vxPathErr("stat", name, fs.ErrNotExist)
+	}
+	return vxFileInfo{last, int64(len(n.data)), n.dir}, nil
+}
+
+func vxFileStat(h *os.File) (fs.FileInfo, error) {
+	hd := vxFS.handles[h]
+	return vxFileInfo{"", int64(len(hd.node.data)), hd.node.dir}, nil
+}
+
 func vxRootRename(r *os.Root, oldname, newname string) error {
 	f := vxFS
 	f.step()
@@ -289,6 +333,10 @@ var vxReplace = map[string]any{
 	"(*os.Root).Open":      vxRootOpen,
 	"(*os.Root).Remove":    vxRootRemove,
 	"(*os.Root).Rename":    vxRootRename,
+	"(*os.Root).RemoveAll": vxRootRemoveAll,
+	"(*os.Root).Stat":      vxRootStat,
+	"(*os.Root).Lstat":     vxRootStat,
+	"(*os.File).Stat":      vxFileStat,
 	"(*os.Root).Name":      vxRootName,
 	"(*os.Root).Chtimes":   vxRootChtimes,
 	"(*os.File).Write":     vxFileWrite,
